@@ -8,6 +8,15 @@ import traceback
 from vf.report import Run
 
 
+def _leave(rc):
+    """verdict, evidence and replays are written: leave WITHOUT interpreter finalisation.  Destroying z3 contexts during
+    finalisation (Context.__del__ -> Z3_del_context -> ~ast_manager) was observed spinning for more than an hour after the
+    check had printed its OK line; nothing of value happens there."""
+    sys.stdout.flush()
+    sys.stderr.flush()
+    os._exit(int(rc or 0))
+
+
 def main():
     ap = argparse.ArgumentParser()
     ap.add_argument('pid')
@@ -22,7 +31,7 @@ def main():
             importlib.import_module(f'contracts.{a.pid}_c')
         except ImportError:
             pass
-        sys.exit(mod.replay(a.replay))
+        _leave(mod.replay(a.replay))
     run = Run(a.pid, a.tier, seed, level=getattr(mod, 'LEVEL', 'other'))
     run.only = a.only
     try:
@@ -30,7 +39,7 @@ def main():
     except Exception as e:  # checker crash, never a violation
         traceback.print_exc()
         run.crashed = f'{type(e).__name__}: {e}'
-    sys.exit(run.finish())
+    _leave(run.finish())
 
 
 if __name__ == '__main__':
